@@ -26,7 +26,7 @@ def strategy(optimizer, tier):
         optimizer, task=strategies.task_spec(minmax=("max",)),
         config=strategies.config_spec(optimizer, max_cycles=(3, 6 if tier == "quick" else 15), stopping=False,
                                       min_cycles=3, perturb=0.5),
-        modes=("serial",))
+        modes=("serial",), warmup=0.15)
 
 
 def run_pair(spec):
